@@ -295,11 +295,12 @@ func Wrap[T ~string](str T, token string) T {
 
 // Unwrap a string with the specified token.
 func Unwrap[T ~string](str T, token string) T {
-	startToken := strings.Index(string(str), token)
-	endToken := strings.LastIndex(string(str), token)
+	s := string(str)
 
-	if startToken == 0 && endToken <= len(str)-1 {
-		str = str[len(token):endToken]
+	// The string is wrapped only if the token opens and closes it without overlapping itself.
+	if len(token) > 0 && len(s) >= 2*len(token) &&
+		strings.HasPrefix(s, token) && strings.HasSuffix(s, token) {
+		str = str[len(token) : len(s)-len(token)]
 	}
 
 	return str
